@@ -5,9 +5,16 @@ RULE = ("outdim/tjcrop: dimension formula and region validation compared with th
         "skiphist: histories of read(n) / multi-row read / skip(n) calls from a grammar biased to iMCU-row boundaries +-{0,1,2}, "
         "with and without a horizontal crop, over all subsamplings x scaling factors k/8 x fancy/merged upsampling x islow/ifast x "
         "baseline/progressive/arithmetic, every delivered row compared with a full decode (oracle on the real decoder); "
+        "skipst: the counters of the read/skip state machine (output_scanline, output_iMCU_row, buffer_full, rowgroup_ctr, next_row_out, "
+        "rows_to_go, return value), read through the repo's private headers after every call of such a history (incl. zero-row reads and "
+        "zero-row skips), compared with Model.SkipSM (separate upsampler) or Model.MergedSM (merged upsampler, spare_full in place of next_row_out) for every configuration "
+        "without context rows; "
         "smoothhist: the same on progressive streams cut short inside the entropy-coded data with block smoothing active "
         "(decompress_smooth_data, DC-only and partly refined coefficients), crops with x offset 0 and > 0 and the right edge inside the image")
-TRUSTED = ["Model.DecompCtl covers the arithmetic only; the read/skip state machine is not modelled (oracle on the real code)"]
+TRUSTED = ["Model.DecompCtl covers the arithmetic; Model.SkipSM / Model.MergedSM are hand models of the read/skip state machine of jdapistd.c / jdmainct.c (simple main) / "
+           "jdsample.c (sep_upsample) / jdmerge.c (merged_1v/2v_upsample) for configurations without context rows, tied counter by counter by skipst; "
+           "the context-row state machine and the horizontal crop are not modelled (oracle on the real code); that a row's "
+           "pixels depend only on its provenance (iMCU row, row group, row) is not modelled either (oracle)"]
 ASSUMPTIONS = ["block smoothing is switched off in skiphist (complete streams never use it) and on in smoothhist (streams cut short)"]
 IMAX = 2147483647
 
@@ -16,6 +23,8 @@ def classify(op, R):
     p = op.split(" ")
     if p[0] == "smoothhist":
         return "smoothhist:cut%s:ss%s:s%s:f%s:crop%s" % (p[1], p[2], p[7], p[8], ("0" if int(p[11]) == 0 else "L" if int(p[10]) == 0 else "X"))
+    if p[0] == "skipst":
+        return "skipst:ss%s:s%s:%s:%s" % (p[1], p[5], "ms" if p[4] == "1" else "ss", "skip" if R.startswith("skip") else R.split(" ")[0])
     if p[0] == "skiphist":
         return "skiphist:ss%s:s%s:f%s:crop%s:%s" % (p[1], p[6], p[7], int(int(p[10]) > 0), "ms" if (p[4] == "1") else "ss")
     return p[0]
@@ -31,6 +40,8 @@ def history(rng, lines_per_imcu, height):
         kind = rng.choice(["s", "s", "s", "r", "r", "m"])
         if kind == "m":
             n = min(n, 40)
+        if rng.random() < .06:
+            calls.append(rng.choice(["m0", "m0", "s0"]))      # calls that ask for nothing
         calls.append("%s%d" % (kind, n))
         pos += n
     return calls
@@ -66,6 +77,27 @@ def gen_ops(rng, tier):
         else:
             cx, cw = 0, 0
         ops.append("skiphist %d %d %d %d %d %d %d %d %d %d %d %s" % (ss, w, h, prog, arith, snum, fancy, dct, cx, cw, rng.randrange(1 << 20), " ".join(calls)))
+    # the counters of the read/skip state machine after every call, against Model.SkipSM (configurations without context rows / merged upsampling;
+    # the executor answers "skip" for the others)
+    for i in range(4000 if big else 500):
+        ss = rng.choice([0, 1, 2, 2, 4, 4, 5, 6, 3])
+        w = rng.choice([17, 33, 40]); h = rng.choice([1, 7, 17, 33, 40, 48, 70, 97])
+        prog = int(rng.random() < .3)
+        snum = rng.choice([8, 8, 4, 2, 1, 3, 5, 6, 7, 9, 12, 16])
+        m = rng.random()
+        fancy, ycc = (0, 1) if m < .35 else (1, rng.randint(0, 1)) if m < .55 else (0, 0)
+        if (fancy, ycc) == (0, 0) and rng.random() < .7:
+            ss = rng.choice([1, 2, 2, 2]); snum = rng.choice([8, 8, 9, 12, 16, snum])       # where the merged upsampler is used
+        # the upsampler jdmaster.c use_merged_upsample() is expected to pick (the executor answers "skip" if it picked the other one)
+        upm = int(fancy == 0 and ycc == 0 and (ss == 1 or (ss == 2 and snum >= 8)))
+        mcuh = {0: 8, 1: 8, 2: 16, 3: 8, 4: 16, 5: 8, 6: 32}[ss]
+        oh = (h * snum + 7) // 8
+        calls = history(rng, max(1, mcuh * snum // 8), oh)
+        if rng.random() < .3:
+            calls = [c if c[0] != "r" else "m" + c[1:] for c in calls]
+        ops.append("skipst %d %d %d %d %d %d %d %d %d %s" % (ss, w, h, prog, snum, fancy, ycc, upm, rng.randrange(1 << 20), " ".join(calls)))
+    ops += ["skipst 2 40 37 0 8 0 1 0 5 m2 m3 s1 s20 m2 m2 s100", "skipst 0 40 37 1 8 1 0 0 5 r3 s9 m0 s8 r2 s3 m5",
+            "skipst 2 40 37 0 8 0 0 1 5 r3 s4 m0 r2 s13 r3 s2 r1", "skipst 1 40 37 1 3 0 0 1 5 r3 s9 m0 s8 r2 s3 m5"]
     # block smoothing: a progressive stream cut short inside its entropy-coded data (so that jdcoefct.c decompress_smooth_data produces the
     # pixels, incl. the DC-only case), then crops with the right edge inside the image / x offset 0 / x offset > 0, reads and skips
     for i in range(1500 if big else 260):
@@ -87,7 +119,8 @@ def gen_ops(rng, tier):
         ops.append("smoothhist %d %d %d %d 1 %d %d %d 0 %d %d %d %s" % (cut, ss, w, h, arith, snum, fancy, cx, cw, rng.randrange(1 << 20), " ".join(calls)))
     ops.append("smoothhist 300 0 40 40 1 0 8 1 0 12 26 628569 r200")
     # the minimised failing histories of the defects repaired in /repo (corpus)
-    ops += ["skiphist 0 40 40 0 0 8 1 0 0 0 5 s7 s1 r3", "skiphist 2 40 40 0 0 8 0 0 0 0 5 r1 s20 r5",
+    ops += ["skiphist 0 32 32 0 0 8 1 0 0 0 5 m0 s8 r4", "skiphist 0 32 32 1 0 8 1 0 0 0 5 r8 m0 s9 r4",
+            "skiphist 0 40 40 0 0 8 1 0 0 0 5 s7 s1 r3", "skiphist 2 40 40 0 0 8 0 0 0 0 5 r1 s20 r5",
             "skiphist 2 40 40 0 0 8 0 0 0 0 5 r3 s20 r5"]
     return ops
 
@@ -110,10 +143,15 @@ MANIFEST = {
     "text": ("Kernel-checked Lean theorems: the 16 scaling factors of the tree are exactly k/8; output dimension = ceil(dim x M/8) "
              "(and equal for the reduced and the /8 form of a factor); the crop window starts at the iMCU boundary at or below the "
              "request and keeps the requested right edge; skip returns min(n, rows left); tj3SetCroppingRegion accepts exactly the "
-             "documented regions for all 32-bit arguments. The pixel clause (read/skip/crop histories = full decode) is decided by "
-             "an oracle on the real decoder over generated histories; it is partial (no model of the skip state machine)."),
+             "documented regions for all 32-bit arguments; and, over a model of the read/skip state machine (no context rows, separate "
+             "upsampler) whose counters are compared with the real structures after every call: after any history of read(n)/skip(n) calls "
+             "every delivered row is the row group and row of the iMCU row its scanline names, two histories deliver rows of the same "
+             "provenance at the same scanline, a read makes progress, a skip is honoured exactly. For context-row and merged upsampling, "
+             "the horizontal crop and the pixel values themselves the clause is decided by an oracle on the real decoder over generated "
+             "histories (partial)."),
     "design_ref": "DESIGN.md 6.8",
-    "note": ("Trusted: Lean kernel; axioms propext, Quot.sound, Classical.choice; arithmetic model tied by outdim/tjcrop ops; the "
-             "read/skip state machine of jdapistd.c/jdmainct.c/jdsample.c/jdmerge.c is NOT modelled: that clause rests on the oracle."),
-    "technique": "Lean 4 proof (omega over the dimension/crop/validation arithmetic) + history oracle on the real decoder",
+    "note": ("Trusted: Lean kernel; axioms propext, Quot.sound, Classical.choice; arithmetic model tied by outdim/tjcrop ops; the read/skip "
+             "state machine is modelled and tied (skipst) for the simple main controller + separate upsampler; the context-row main controller "
+             "and jdmerge.c are NOT modelled: there the clause rests on the oracle."),
+    "technique": "Lean 4 proof (omega over the dimension/crop/validation arithmetic; invariant by induction over read/skip histories of a state-machine model tied to the real counters) + history oracle on the real decoder",
 }
